@@ -17,9 +17,12 @@
 #define QSV_INF (1 << 28)        /* payload standing for ILL_MAXDOUBLE in the GMP model */
 
 #ifdef QSV_CBMC
-#define IN_INT(n)   int n = nondet_int()
-#define IN_CHAR(n)  char n = nondet_char()
-#define IN_BOOL(n)  int n = nondet_bool()
+/* named inputs use their own nondet functions so that the anonymous nondet_*() sequence of a
+ * counterexample (popped in order by the native replay) does not contain them */
+int nondet_in_int(void); char nondet_in_char(void); _Bool nondet_in_bool(void);
+#define IN_INT(n)   int n = nondet_in_int()
+#define IN_CHAR(n)  char n = nondet_in_char()
+#define IN_BOOL(n)  int n = nondet_in_bool()
 #define ASSUME(c)   __CPROVER_assume(c)
 #define ASSERT(c, msg) __CPROVER_assert(c, msg)
 #define REACH_END() __CPROVER_assert(0, "reach_end")
